@@ -32,6 +32,13 @@ for tier in ("quick", "thorough"):
                 continue
             known.add(key)
             added += 1
+            if v["signature"].startswith("cmt1:"):
+                # single-comment enumeration: the case id (file, shape, token index, width) replays it
+                entry = {"property": prop, "signature": v["signature"], "status": "open",
+                         "what": (what + " " if what else "") + v["detail"][:110].replace("\n", " "),
+                         "witness": {"id": cid, "enumeration": "one comment of the named shape inserted after token #k of the corpus file (its own comments removed)"}}
+                out.write(json.dumps(entry, sort_keys=True) + "\n")
+                continue
             entry = {"property": prop, "signature": v["signature"], "status": "open",
                      "what": (what + " " if what else "") + v["detail"][:160].replace("\n", " "),
                      "witness": ({"id": cid, "cfg": v["case"].get("cfg"), "range": v["case"].get("range"),
